@@ -126,14 +126,23 @@ func (cr *ChunkReader) Read(p []byte) (int, error) {
 // readToEOF reads the underlying reader until it reports io.EOF
 func (cr *ChunkReader) readToEOF() error {
 	var buf [512]byte
+	empty := 0
 	for {
-		_, err := cr.r.Read(buf[:])
+		n, err := cr.r.Read(buf[:])
 		if err == io.EOF {
 			cr.isEOF = true
 			return nil
 		}
 		if err != nil {
 			return err
+		}
+		if n > 0 {
+			empty = 0
+			continue
+		}
+		// a reader that keeps returning neither data nor an error
+		if empty++; empty >= 100 {
+			return io.ErrNoProgress
 		}
 	}
 }
